@@ -20,6 +20,9 @@ RULE = ('(a) API-level interleavings on p/1 (and p/2): 1-3 enumerations (query o
         'Non-trivial = at least one modification between two steps of an open enumeration; distinct = hash of the history')
 ASSUMPTIONS = ['"the goal started" = first next() of its generator (a generator does nothing before)',
                'reference interpreters A and B agree']
+RULE_ADDED = (' Added after the rounds of independently written changes (DESIGN.md 12.2): ' +
+              'predicates of 17-130 facts modified at both ends; zero-argument predicates and a token-pool idiom; bounded-exhaustive interleavings.')
+RULE = RULE + RULE_ADDED
 
 KEYS = [('p', 1), ('p', 2), ('c', 1)]
 VALS = [A('a'), A('b'), A('c'), I(1), I(2)]
